@@ -187,12 +187,11 @@ Theorem C05_cg_no_breakdown_while_residual_nonzero k :
 Proof. exact (fun Apd Ppd => cg_nobreak_while_residual_nonzero Sft Sreal n A P A_len P_len A_sym P_sym f x0 Lf Lx0 Ord Apd Ppd k). Qed.
 End CGField.
 
-(* FULL STATEMENT (unproved): finite termination -- under the hypotheses of the last theorem,
-     nobreak A P f x0 n -> rk A P f x0 n = zeron n
-   (n mutually A-conjugate non-zero directions span S^n, and r_n is orthogonal to all of them).  Needs the
-   dimension theorem for S^n, which is not in the development; tested on the implementation
-   (tools/props/C05.py, finite termination and Galerkin oracles), and holds by computation on the
-   example system (KrylovMathQc.cg_example_terminates). *)
+(* Finite termination -- nobreak A P f x0 n -> rk A P f x0 n = zeron n, and unconditionally for positive definite A, P
+   in an ordered field: some r_k, k <= n, vanishes -- is PROVED at the end of this file (section "C05-B1, finite
+   termination": C05_cg_finite_termination, C05_cg_terminates_within_n_steps; the dimension lemma for lists
+   C05_more_than_n_vectors_of_length_n_are_dependent; proofs in KrylovMath2CG.v).  Also tested on the implementation
+   (tools/props/C05.py, finite termination and Galerkin oracles). *)
 
 (* ---- GMRES / FGMRES / LGMRES: one inner iteration ---- *)
 Section GmresField.
@@ -799,3 +798,136 @@ Example C05_gmres_residual_nonincreasing_in_k_example :
   let x1 := fst (gm_cycle AH Pid (prmG 1) epsG nrG xG w0G 0) in
   ole (rdot (pres AH Pid false fG x2) (pres AH Pid false fG x2)) (rdot (pres AH Pid false fG x1) (pres AH Pid false fG x1)).
 Proof. exact gmres_maxiter_monotone_example. Qed.
+
+(* ... the same over the SPAN (KrylovMath2Span.v): the inductively defined linear span of v_0..v_{j-1} is exactly the set of
+   the combinations comb n v y j, so the x' returned by the cycle lies in x + (P) span(v_0..v_{j-1}) and has the smallest
+   (preconditioned) residual norm of ALL elements of that affine space *)
+From Amgcl Require Import KrylovMath2Span.
+Theorem C05_span_is_set_of_combinations (S : Scalar) (Srt : Sring S) n (v : nat -> vec S) j :
+  (forall l, l < j -> length (v l) = n) ->
+  forall z, span n (Vgen v j) z <-> exists y, z = comb n v y j.
+Proof. exact (span_iff_comb Srt n v j). Qed.
+Print Assumptions C05_span_is_set_of_combinations.
+
+Theorem C05_gmres_returns_residual_minimiser_over_krylov_space (S : Scalar) (Sft : Sfield S) (Seqb : seqb_spec S)
+  (Sreal : forall x : S, sadj x = x) (HofQ0 : sofQ (0 # 1)%Q = @s0 S) (HofQ1 : sofQ (1 # 1)%Q = @s1 S) (Ord : ordered S)
+  n (A P : vec S -> vec S) prm f x (w : @gm_ws S) eps norm_r it :
+  (forall v, length v = n -> length (A v) = n) -> (forall v, length v = n -> length (P v) = n) ->
+  linear_on n A -> linear_on n P -> length f = n -> length x = n ->
+  g_r w = pres A P (p_left prm) f x -> norm_r * norm_r = rdot (g_r w) (g_r w) -> norm_r <> s0 ->
+  let left := p_left prm in
+  let w1 := gm_w1 norm_r w in
+  let jj := n_j (gm_run A P prm eps norm_r w it) in
+  (forall i, i < jj -> arn_h (W A P left w1 i) i (Kv A P left w1 i) <> s0) ->
+  (forall i, i < jj ->
+     arn_h (W A P left w1 i) i (Kv A P left w1 i) * arn_h (W A P left w1 i) i (Kv A P left w1 i) =
+     rdot (arn_w (W A P left w1 i) i (Kv A P left w1 i)) (arn_w (W A P left w1 i) i (Kv A P left w1 i))) ->
+  (forall i, i < jj -> unit_rot (g_cs (W A P left w1 (Datatypes.S i)) i) (g_sn (W A P left w1 (Datatypes.S i)) i)) ->
+  (forall i, i < jj ->
+     let dx := tail_H3 (Wb A P left w1 i) i (Kv A P left w1 i) i i in
+     let dy := tail_H3 (Wb A P left w1 i) i (Kv A P left w1 i) (Datatypes.S i) i in
+     is_zero dy = false -> sltb (sabs dx) (sabs dy) = false -> dx <> s0) ->
+  let x' := fst (gm_cycle A P prm eps norm_r x w it) in
+  (exists z, cycle_space n A P prm w eps norm_r it z /\ x' = vadd x (Pr P left z)) /\
+  forall z, cycle_space n A P prm w eps norm_r it z ->
+    ole (rdot (pres A P left f x') (pres A P left f x'))
+        (rdot (pres A P left f (vadd x (Pr P left z))) (pres A P left f (vadd x (Pr P left z)))).
+Proof.
+  exact (fun HA HP LA LP Lf Lx Hr Nx Nn =>
+    gm_cycle_minimises_over_span Sft Seqb Sreal HofQ0 HofQ1 Ord n A P HA HP LA LP prm f x w eps norm_r it Lf Lx Hr Nx Nn).
+Qed.
+Print Assumptions C05_gmres_returns_residual_minimiser_over_krylov_space.
+
+(* =====================================================================================
+   C05-B1, finite termination (KrylovMath2CG.v).  (a) n + 1 vectors of length n over a field are linearly dependent;
+   (b) a family orthogonal w.r.t. B(u, v) = <u, P v> with B(v, v) <> 0 is independent; (c) CG: the residuals r_0..r_n
+   are mutually P-orthogonal, so r_n = 0 if no breakdown occurred in n steps; with positive definite A and P in an
+   ordered field some r_k, k <= n, vanishes and x_k solves the system.
+   ===================================================================================== *)
+From Amgcl Require Import KrylovMath2CG.
+
+Theorem C05_more_than_n_vectors_of_length_n_are_dependent (S : Scalar) (Sft : Sfield S) (Seqb : seqb_spec S)
+        n (vs : list (vec S)) :
+  length vs = Datatypes.S n -> alln n vs ->
+  exists cs, length cs = Datatypes.S n /\ ~ allzero cs /\ lc n cs vs = zeron n.
+Proof. exact (lin_dep Sft Seqb n vs). Qed.
+Print Assumptions C05_more_than_n_vectors_of_length_n_are_dependent.
+
+Theorem C05_orthogonal_family_is_independent (S : Scalar) (Sft : Sfield S) n (P : vec S -> vec S)
+        (vs : list (vec S)) (cs : list S) :
+  alln n vs -> length cs = length vs ->
+  ForallOrdPairs (fun u v => Bf P u v = s0 /\ Bf P v u = s0) vs -> Forall (fun v => Bf P v v <> s0) vs ->
+  lc n cs vs = zeron n -> allzero cs.
+Proof. exact (orth_indep Sft n P vs cs). Qed.
+Print Assumptions C05_orthogonal_family_is_independent.
+
+Section CGFiniteTermination.
+Variable S : Scalar.
+Hypothesis Sft : Sfield S.
+Hypothesis Seqb : seqb_spec S.
+Hypothesis Sreal : forall x : S, sadj x = x.
+Variable n : nat.
+Variables A P : vec S -> vec S.
+Hypothesis A_len : forall v, length v = n -> length (A v) = n.
+Hypothesis P_len : forall v, length v = n -> length (P v) = n.
+Hypothesis A_sym : forall x y, length x = n -> length y = n -> rdot (A x) y = rdot x (A y).
+Hypothesis P_sym : forall x y, length x = n -> length y = n -> rdot (P x) y = rdot x (P y).
+Variables f x0 : vec S.
+Hypothesis Lf : length f = n.
+Hypothesis Lx0 : length x0 = n.
+
+(* field only; P definite on non-zero vectors (needed for r_n alone: for j < n, <r_j, P r_j> <> 0 is part of nobreak) *)
+Theorem C05_cg_finite_termination :
+  (forall v, length v = n -> v <> zeron n -> rdot v (P v) <> s0) ->
+  nobreak A P f x0 n -> rk A P f x0 n = zeron n.
+Proof. exact (cg_finite_termination Sft Seqb Sreal n A P A_len P_len A_sym P_sym f x0 Lf Lx0). Qed.
+
+Hypothesis A_lin : linear_on n A.
+Theorem C05_cg_reaches_solution_after_n_steps :
+  (forall v, length v = n -> v <> zeron n -> rdot v (P v) <> s0) ->
+  nobreak A P f x0 n -> A (xk A P f x0 n) = f.
+Proof. exact (fun Pd => cg_reaches_solution Sft Seqb Sreal n A P A_len P_len A_sym P_sym f x0 Lf Lx0 Pd A_lin). Qed.
+
+(* on the model of cg.hpp: a call that makes n iterations returns the exact solution *)
+Theorem C05_cg_model_exact_after_n_iterations prm junk nr r w :
+  (forall v, length v = n -> v <> zeron n -> rdot v (P v) <> s0) ->
+  k_prologue norm_a prm f = Go nr -> cg A P prm f x0 junk = (KOk r, w) ->
+  k_it r = n -> nobreak A P f x0 n -> A (k_x r) = f.
+Proof.
+  exact (fun Pd => cg_model_exact_after_n_iterations Sft Seqb Sreal n A P A_len P_len A_sym P_sym f x0 Lf Lx0 Pd A_lin
+                     prm junk nr r w).
+Qed.
+
+(* ordered field, A and P positive definite: NO hypothesis on the run *)
+Hypothesis Ord : ordered S.
+Theorem C05_cg_terminates_within_n_steps :
+  (forall v, length v = n -> v <> zeron n -> olt s0 (rdot v (A v))) ->
+  (forall v, length v = n -> v <> zeron n -> olt s0 (rdot v (P v))) ->
+  exists k, k <= n /\ rk A P f x0 k = zeron n /\ A (xk A P f x0 k) = f.
+Proof.
+  exact (fun Apd Ppd => cg_terminates_within_n_steps Sft Seqb Sreal Ord n A P A_len P_len A_sym P_sym A_lin Apd Ppd f x0 Lf Lx0).
+Qed.
+End CGFiniteTermination.
+Print Assumptions C05_cg_finite_termination.
+Print Assumptions C05_cg_reaches_solution_after_n_steps.
+Print Assumptions C05_cg_model_exact_after_n_iterations.
+Print Assumptions C05_cg_terminates_within_n_steps.
+
+Theorem C05_cg_terminates_within_n_steps_Qc n (A P : vec QcS -> vec QcS) f x0 :
+  (forall v, length v = n -> length (A v) = n) -> (forall v, length v = n -> length (P v) = n) ->
+  (forall x y, length x = n -> length y = n -> rdot (A x) y = rdot x (A y)) ->
+  (forall x y, length x = n -> length y = n -> rdot (P x) y = rdot x (P y)) ->
+  linear_on n A -> length f = n -> length x0 = n ->
+  (forall v, length v = n -> v <> zeron n -> olt s0 (rdot v (A v))) ->
+  (forall v, length v = n -> v <> zeron n -> olt s0 (rdot v (P v))) ->
+  exists k, k <= n /\ rk A P f x0 k = zeron n /\ A (xk A P f x0 k) = f.
+Proof.
+  exact (fun HA HP SA SP LA Lf Lx =>
+    C05_cg_terminates_within_n_steps QcS QcS_field QcS_eqb QcS_real n A P HA HP SA SP f x0 Lf Lx LA QcS_ordered').
+Qed.
+Print Assumptions C05_cg_terminates_within_n_steps_Qc.
+
+(* the hypotheses are those of C05_cg_math_hypotheses_satisfiable / C05_cg_no_breakdown_hypotheses_satisfiable *)
+Example C05_cg_terminates_example :
+  exists k, k <= 3 /\ rk A3 P3 f3 x03 k = zeron 3 /\ A3 (xk A3 P3 f3 x03 k) = f3.
+Proof. exact cg_termination_example. Qed.
